@@ -119,10 +119,12 @@ def task_container(pr, repo):
     ex.loop_hooks.clear()
 
     def t3(ex, ctx):
-        gs = [record('g%d' % i, G, __idx__=i) for i in range(3)]
+        # three titratable groups, two of them with ONE label (residues 29 and 29A, two copies of a ligand): labels do not identify groups
+        gs = [record('g%d' % i, G, __idx__=i, titratable=True, label=('ASP  29 A' if i < 2 else 'GLU  30 A'), type='COO',
+                     residue_type=('ASP' if i < 2 else 'GLU')) for i in range(3)]
         conf = record('conf', CCls, groups=gs, parameters=None)
         r = ex.call_function(fi, [], {'ph': R('ph'), 'reference': 'neutral'}, self_obj=conf)
-        ctx.oblige('CF (3 groups): result == sum of the three group terms', r == Sym(F(0)) + Sym(F(1)) + Sym(F(2)))
+        ctx.oblige('CF (3 groups, two equally labelled): result == sum of the three group terms', r == Sym(F(0)) + Sym(F(1)) + Sym(F(2)))
     pr.explore(ex, t3, CF + ' 3 groups')
 
 
